@@ -58,7 +58,7 @@ type c02Attr struct {
 }
 
 type c02In struct {
-	Mode      string    `json:"mode"` // "stream" | "malformed" | "deepfwd"
+	Mode      string    `json:"mode"` // "stream" | "malformed" | "deepfwd" | "deepnode"
 	// deepfwd: one <Kind/> stanza holding Depth nested <delegation><forwarded><Kind> wrappers
 	// (the 10 MB document is generated from these two fields, never stored)
 	Depth int    `json:"depth,omitempty"`
@@ -72,6 +72,12 @@ type c02In struct {
 	// Bound: do not go to crash depth; parse depth Depth and 2*Depth and require that the
 	// decoder followed the nesting equally far in both (it is bounded, not input-driven)
 	Bound bool `json:"bound,omitempty"`
+	// deepnode: one element of kind Kind (message | presence | iq | features) holding, at the
+	// position Where (see c02NodePositions), a chain of Depth nested unknown elements (root of
+	// the chain included); Shape "" plain, "sib": every level of the chain also has an empty
+	// sibling before and after the nested child, "text": character data at every level.
+	// The document is generated from these fields at run time, never stored.
+	Where string `json:"where,omitempty"`
 	Component bool      `json:"component,omitempty"`
 	Items     []c02Node `json:"items,omitempty"`
 	Closed    bool      `json:"closed,omitempty"` // </stream:stream> at the end
@@ -98,7 +104,7 @@ func (c02) Workers() int  { return 8 }
 // down (fatal error: stack overflow cannot be recovered) is found again and reported.
 func (c02) Journal() bool { return true }
 func (c02) Rule() string {
-	return "streams of 0-8 top-level elements (client / component / stream / SASL / SM namespaces, ~8% with an undispatchable element) after a real stream header; stanza start tags with unqualified type/id/from/to, xml:lang and qualified look-alikes (p:id, xmlns:id, q:lang, unqualified lang); children drawn from registered extensions with valid content incl. every one with a hand-written UnmarshalXML (pubsub event, pubsub owner, command, delegation/forwarded, MUC history) holding same-named descendants below unknown children, unknown elements (incl. names body/error/show/message/presence/iq/forwarded/failed below unknown parents), same-named nested stanzas (carbons/MAM shape), known child names, error children, <failed/> with listed, unlisted and unknown children and any h, chains of depth up to 200 (thorough 20000), text/CDATA/comments/PIs inside and between elements; each stream read whole, 1 byte per read, random chunks, and (one stream per run) split at every offset; malformed: every truncation of one stream, random byte corruptions, random bytes. distinct = distinct sequence of (top-level kind, child-shape summary); non-trivial = at least 2 top-level elements one of which has element children"
+	return "streams of 0-8 top-level elements (client / component / stream / SASL / SM namespaces, ~8% with an undispatchable element) after a real stream header; stanza start tags with unqualified type/id/from/to, xml:lang and qualified look-alikes (p:id, xmlns:id, q:lang, unqualified lang); children drawn from registered extensions with valid content incl. every one with a hand-written UnmarshalXML (pubsub event, pubsub owner, command, delegation/forwarded, MUC history) holding same-named descendants below unknown children, unknown elements (incl. names body/error/show/message/presence/iq/forwarded/failed below unknown parents), same-named nested stanzas (carbons/MAM shape), known child names, error children, <failed/> with listed, unlisted and unknown children and any h, chains of depth up to 200 (thorough 20000), chains of unknown elements of depth 1000 / 4096 / 10000 / 10001 / 20000 / 65536 / 100001 (thorough: 24 depths up to 250000; plain, with siblings, with text at every level) at every position where content is decoded generically into a Node (unknown iq payload; child of, inside the condition of and inside the text of the <error/> of iq / message / presence; <starttls/> of the features; pubsub item payload in request, publish and event; unknown / x / set children of an ad-hoc command) and at the skipping positions (unknown child of message / presence, body, status, disco query, features), each read whole and in random chunks, plus depth 10001 and 12345 at the iq-payload and error positions through the model, text/CDATA/comments/PIs inside and between elements; each stream read whole, 1 byte per read, random chunks, and (one stream per run) split at every offset; malformed: every truncation of one stream, random byte corruptions, random bytes. distinct = distinct sequence of (top-level kind, child-shape summary); non-trivial = at least 2 top-level elements one of which has element children"
 }
 
 // ---------------------------------------------------------------- serialisation
@@ -471,6 +477,100 @@ func c02DeepDoc(kind string, depth int, shape string, every int) []byte {
 	return []byte(b.String())
 }
 
+// c02NodePositions: every position of a top-level element at which the library decodes
+// content generically (into a stanza.Node, whose tree is as deep as the input), and, for
+// contrast, the positions at which unknown content is skipped.  kinds = the top-level elements
+// the position exists in; open/close = what stands between the top-level element's start tag
+// and the chain; el = local name of the chain's elements (namespace "u").
+var c02NodePositions = []struct {
+	where       string
+	kinds       []string
+	open, close string
+	el          string
+}{
+	// unknown payload of an iq (IQ.Any); for message and presence an unknown child is skipped
+	{"child", []string{"iq", "message", "presence"}, "", "", "x"},
+	// children of the stanza <error/> (Err.UnmarshalXML reads each child into a Node): between
+	// the condition and the text, and inside the condition
+	{"error", []string{"iq", "message", "presence"}, "<error type='cancel'><item-not-found xmlns='" + c02NSStanzas + "'/>", "<text xmlns='" + c02NSStanzas + "'>why</text></error>", "x"},
+	{"error-cond", []string{"iq", "message", "presence"}, "<error type='modify'><gone xmlns='" + c02NSStanzas + "'>", "</gone></error>", "x"},
+	{"error-text", []string{"iq", "message", "presence"}, "<error type='wait'><conflict xmlns='" + c02NSStanzas + "'/><text xmlns='" + c02NSStanzas + "'>", "</text></error>", "x"},
+	// children of <starttls/> in the stream features (TlsStartTLS.UnmarshalXML)
+	{"starttls", []string{"features"}, "<starttls xmlns='urn:ietf:params:xml:ns:xmpp-tls'>", "</starttls>", "x"},
+	// Node-typed fields of registered extensions: the payload of a pubsub item (request and
+	// event), unknown children of an ad-hoc command (default branch and the x / set look-alikes)
+	{"pubsub-item", []string{"iq"}, "<pubsub xmlns='http://jabber.org/protocol/pubsub'><items node='n'><item id='i'>", "</item></items></pubsub>", "x"},
+	{"pubsub-publish", []string{"iq"}, "<pubsub xmlns='http://jabber.org/protocol/pubsub'><publish node='n'><item id='i'>", "</item></publish></pubsub>", "x"},
+	{"event-item", []string{"message"}, "<event xmlns='http://jabber.org/protocol/pubsub#event'><items node='n'><item id='i'>", "</item></items></event>", "x"},
+	{"command", []string{"iq"}, "<command xmlns='http://jabber.org/protocol/commands' node='n'>", "</command>", "y"},
+	{"command-x", []string{"iq"}, "<command xmlns='http://jabber.org/protocol/commands' node='n'>", "</command>", "x"},
+	{"command-set", []string{"iq"}, "<command xmlns='http://jabber.org/protocol/commands' node='n'>", "</command>", "set"},
+	// skipped content: below a known string-valued child, below a registered extension
+	// decoded by reflection, below the stream features
+	{"body", []string{"message"}, "<body>", "</body>", "x"},
+	{"status", []string{"presence"}, "<status>", "</status>", "x"},
+	{"disco", []string{"iq"}, "<query xmlns='http://jabber.org/protocol/disco#info'>", "</query>", "x"},
+	{"features", []string{"features"}, "", "", "x"},
+}
+
+// c02NodeDoc: header + one top-level element with a chain of depth nested unknown elements at
+// the position where + a sentinel presence + end tag; nil if there is no such position.
+func c02NodeDoc(kind, where string, depth int, shape string) []byte {
+	for _, p := range c02NodePositions {
+		if p.where != where {
+			continue
+		}
+		ok := false
+		for _, k := range p.kinds {
+			ok = ok || k == kind
+		}
+		if !ok {
+			return nil
+		}
+		var b strings.Builder
+		b.Grow(depth*(2*len(p.el)+24) + 600)
+		b.WriteString(c02Header(false))
+		tag := kind
+		if kind == "features" {
+			tag = "stream:features"
+			b.WriteString("<stream:features>")
+		} else {
+			typ := "set"
+			if strings.HasPrefix(where, "error") {
+				typ = "error"
+			}
+			b.WriteString("<" + kind + " id='top' type='" + typ + "'>")
+		}
+		b.WriteString(p.open)
+		for i := 0; i < depth; i++ {
+			if i == 0 {
+				b.WriteString("<" + p.el + " xmlns='u'>")
+			} else {
+				b.WriteString("<" + p.el + ">")
+			}
+			switch shape {
+			case "sib":
+				b.WriteString("<s/>")
+			case "text":
+				b.WriteString("a")
+			}
+		}
+		for i := 0; i < depth; i++ {
+			switch shape {
+			case "sib":
+				b.WriteString("<s a='1'/>")
+			case "text":
+				b.WriteString("b")
+			}
+			b.WriteString("</" + p.el + ">")
+		}
+		b.WriteString(p.close)
+		b.WriteString("</" + tag + "><presence id='after'/></stream:stream>\n")
+		return []byte(b.String())
+	}
+	return nil
+}
+
 // c02Followed: how many levels of forwarded stanzas the decoder followed in the packet it
 // returned (packet -> delegation -> forwarded -> stanza -> ...)
 func c02Followed(p stanza.Packet) int {
@@ -612,6 +712,36 @@ func (c02) Run(inp interface{}) Sx {
 		}
 		return L(Z(77))
 	}
+	if in.Mode == "deepnode" {
+		// same stack arrangement as deepfwd: generic content is kept with an explicit stack, so
+		// a goroutine stack that grows with the input ends the process (crash journal) long
+		// before the default 1 GB
+		debug.SetMaxStack(128 << 20)
+		data := c02NodeDoc(in.Kind, in.Where, in.Depth, in.Shape)
+		if data == nil {
+			return L(Z(-8))
+		}
+		var first Sx
+		if in.Kind == "features" {
+			first = L(Z(4))
+		} else {
+			typ := "set"
+			if strings.HasPrefix(in.Where, "error") {
+				typ = "error"
+			}
+			code := map[string]int64{"message": 1, "presence": 2, "iq": 3}[in.Kind]
+			first = L(Z(code), SBytes(typ), SBytes("top"), SBytes(""), SBytes(""), SBytes(""))
+		}
+		want := []Sx{first, L(Z(2), SBytes(""), SBytes("after"), SBytes(""), SBytes(""), SBytes("")), L(Z(15)), L(Z(0), Z(1))}
+		rr := rand.New(rand.NewSource(int64(in.Depth)))
+		for k, next := range []func(int) int{func(rem int) int { return rem }, func(int) int { return 1 + rr.Intn(23) }} {
+			seq, status, _ := c02Parse(&c02ChunkReader{data: data, next: next}, len(data), 10, 120*time.Second)
+			if status != 0 || !c02SeqEq(seq, want) {
+				return L(Z(-5), Zi(status), LS(seq), Zi(k))
+			}
+		}
+		return L(Z(77))
+	}
 	if in.Mode == "malformed" {
 		data := c02MalformedBytes(&in)
 		seq, status, detail := c02Parse(&c02ChunkReader{data: data, next: func(int) int { return 4096 }}, len(data), 1000, 20*time.Second)
@@ -691,7 +821,7 @@ func (c02) Run(inp interface{}) Sx {
 
 func (c02) Input(inp interface{}) Sx {
 	in := inp.(c02In)
-	if in.Mode == "malformed" || in.Mode == "deepfwd" {
+	if in.Mode == "malformed" || in.Mode == "deepfwd" || in.Mode == "deepnode" {
 		return L(Z(77))
 	}
 	_, toks := c02Render(&in)
@@ -947,6 +1077,12 @@ func (c02) Oracle(inp interface{}, obs Sx) (string, string) {
 			return fmt.Sprintf("<%s/> with forwarded stanzas nested %d and %d deep (shape %q every %d): the decoder followed the nesting %d and %d levels - as far as the input goes, not up to a bound", in.Kind, in.Depth, 2*in.Depth, in.Shape, in.Every, obs.L[1].Z, obs.L[2].Z), "forwarded-nesting-unbounded"
 		}
 		return fmt.Sprintf("<%s/> holding %d nested <delegation><forwarded><%s> wrappers (shape %q): not (the stanza, the presence after it, close, end of input): %s", in.Kind, in.Depth, in.Kind, in.Shape, obs.String()), "deep-forwarded"
+	}
+	if in.Mode == "deepnode" {
+		if len(obs.L) == 1 && obs.L[0].Z == 77 {
+			return "", ""
+		}
+		return fmt.Sprintf("<%s/> holding a chain of %d nested unknown elements at position %q (shape %q): not exactly (the element's packet, the presence after it, close, end of input) under whole and chunked reads: %s", in.Kind, in.Depth, in.Where, in.Shape, obs.String()), "deep-generic:" + in.Kind + ":" + in.Where
 	}
 	if in.Mode == "malformed" {
 		if len(obs.L) == 1 && obs.L[0].Z == 77 {
@@ -1946,6 +2082,22 @@ func (c02) Gen(r *rand.Rand, tier string) []interface{} {
 			c02In{Mode: "stream", Closed: true, ChunkSeed: 4, Items: []c02Node{c02El(c02NSClient, "message", c02El("u", "w", deepSame)).with("id", "d4"), c02El(c02NSStream, "features", deepU), c02El(c02NSClient, "message", c02El(c02NSClient, "body", deepU)).with("id", "d5"), c02El(c02NSSM, "r")}})
 		hist("deep:" + c02Bucket(d))
 	}
+	// the same through the model (token lists of 2*depth entries): chains just above the
+	// decoders' likely bound of 10000 at the generically decoded positions - unknown iq payload,
+	// child of <error/> of each stanza kind, inside the error condition
+	for i, d := range []int{10001, 12345} {
+		deepU := c02Node{K: 0, NS: "u", L: "x", Deep: d, C: []c02Node{c02Txt("t")}}
+		errWith := func(c ...c02Node) c02Node {
+			e := c02El("", "error").with("type", "cancel")
+			e.C = c
+			return e
+		}
+		cond := c02El(c02NSStanzas, "item-not-found")
+		out = append(out,
+			c02In{Mode: "stream", Closed: true, ChunkSeed: 5 + int64(i), Items: []c02Node{c02El(c02NSClient, "iq", deepU).with("id", "g1").with("type", "get"), c02El(c02NSClient, "iq", errWith(cond, deepU)).with("id", "g2").with("type", "error"), c02El(c02NSClient, "presence").with("id", "g3")}},
+			c02In{Mode: "stream", Closed: true, ChunkSeed: 7 + int64(i), Items: []c02Node{c02El(c02NSClient, "message", errWith(deepU, cond)).with("id", "g4").with("type", "error"), c02El(c02NSClient, "presence", errWith(c02El(c02NSStanzas, "gone", deepU))).with("id", "g5").with("type", "error"), c02El(c02NSSM, "r")}})
+		hist("deep-generic-model:" + strconv.Itoa(d))
+	}
 	// forwarded stanzas nested far beyond any stack: generated from (kind, depth) at run time
 	// crash depth (with the 128 MB stack limit set in Run, about 40000 followed levels end the
 	// process): plain nesting and nesting with siblings that finish first; and, cheaper, the
@@ -1964,6 +2116,28 @@ func (c02) Gen(r *rand.Rand, tier string) []interface{} {
 			}
 		}
 		hist("deepfwd:" + kd)
+	}
+	// chains of unknown elements at EVERY position where content is decoded generically (and
+	// the skipping positions), at depths around powers of ten and two - the bounds a decoder
+	// is likely to have (encoding/xml's own is 10000): at the bound, one above, far above
+	{
+		depths := []int{1000, 4096, 10000, 10001, 20000, 65536, 100001}
+		if tier == "thorough" {
+			depths = append(depths, 999, 1001, 1024, 1025, 4097, 8192, 9999, 10002, 16384, 32768, 50000, 65535, 65537, 100000, 131072, 250000)
+		}
+		for _, p := range c02NodePositions {
+			for _, kd := range p.kinds {
+				for _, d := range depths {
+					out = append(out, c02In{Mode: "deepnode", Kind: kd, Where: p.where, Depth: d})
+					hist("deepnode:" + p.where)
+					hist("deepnode-depth:" + map[bool]string{true: ">10000", false: "<=10000"}[d > 10000])
+					if (tier == "thorough" && d <= 131072) || d == 10001 || d == 65536 {
+						out = append(out, c02In{Mode: "deepnode", Kind: kd, Where: p.where, Depth: d, Shape: "sib"},
+							c02In{Mode: "deepnode", Kind: kd, Where: p.where, Depth: d, Shape: "text"})
+					}
+				}
+			}
+		}
 	}
 	var sample *c02In
 	for i := 0; i < nStreams; i++ {
@@ -2018,6 +2192,9 @@ func (c02) Key(inp interface{}) (string, bool) {
 	in := inp.(c02In)
 	if in.Mode == "deepfwd" {
 		return fmt.Sprintf("deepfwd:%s:%d:%s:%d:%v", in.Kind, in.Depth, in.Shape, in.Every, in.Bound), true
+	}
+	if in.Mode == "deepnode" {
+		return fmt.Sprintf("deepnode:%s:%s:%d:%s", in.Kind, in.Where, in.Depth, in.Shape), true
 	}
 	if in.Mode == "malformed" {
 		return fmt.Sprintf("mal:%s:%d:%d:%d:%d", in.Op, in.Cut, in.Pos%4096, in.Byte, in.RawSeed), in.Op != "random" || in.RawLen > 10
